@@ -20,7 +20,9 @@ Proof.
   - rewrite ctable_set_same. unfold has_row in *. rewrite existsb_app, H. reflexivity.
   - rewrite ctable_set_other by exact Hn. exact H.
 Qed.
-Lemma ctable_next s n a : ctable {| ca := ca s; cb := cb s; cc := cc s; cnext := n |} a = ctable s a.
+Lemma ctable_next s n a : ctable (set_cnext s n) a = ctable s a.
+Proof. destruct a; reflexivity. Qed.
+Lemma ctable_fired s f a : ctable (set_cfired s f) a = ctable s a.
 Proof. destruct a; reflexivity. Qed.
 
 Lemma chain_level_ok t : forall ls seen kw child s,
@@ -34,6 +36,7 @@ Proof.
   induction ls as [|l ps IH]; intros seen kw child s.
   - intros _. simpl. repeat split; try reflexivity. intros a [].
   - cbn [chain_level].
+    destruct (raiser (cfired s) (sel SCreate (ltab t l))); [cbn [x_ok]; discriminate|].
     destruct (negb (is_nil ps) && negb (kw_has (own l) kw) && no_default (own l)); [cbn [x_ok]; discriminate|].
     specialize (IH [] kw (Some l) s).
     remember (chain_level t ps [] kw (Some l) s) as p eqn:Hp.
@@ -45,7 +48,8 @@ Proof.
     destruct (match kw_get (own l) kw with Some v => Some v | None => col_default (own l) end) as [v|];
       [|cbn [x_ok]; discriminate].
     destruct (negb (val_ok (col_ty (own l)) v)); [cbn [x_ok]; discriminate|].
-    intros _. cbn [x_id x_tr x_done x_st]. repeat split.
+    cbn [x_ok]. destruct (p_raised (posts_x _ SCreate l (cnext s) _)) eqn:Eq; [discriminate|].
+    intros _. destruct (posts_x_quiet _ _ _ _ _ Eq) as [Hq _]. cbn [x_id x_tr x_done x_st]. rewrite Hq. repeat split.
     + repeat rewrite existsb_app. rewrite Hnc, no_sig_run_posts.
       rewrite (no_other_sig_events SCreated SCreate) by reflexivity. reflexivity.
     + repeat rewrite inserts_of_app. rewrite Hins.
@@ -58,9 +62,18 @@ Proof.
         assert (Hx : has_row (cnext s) (ctable (set_ctable (x_st p) l (ctable (x_st p) l ++ [(cnext s, v, child)])) l) = true).
         { rewrite ctable_set_same. unfold has_row. rewrite existsb_app. simpl. unfold crow_id. simpl.
           rewrite Z.eqb_refl, orb_true_r. reflexivity. }
-        destruct (is_nil ps); [rewrite ctable_next|]; exact Hx.
+        rewrite ctable_fired. destruct (is_nil ps); [rewrite ctable_next|]; exact Hx.
       * pose proof (has_row_append (x_st p) l a (cnext s) (cnext s, v, child) (Hrows a Ha)) as Hx.
-        destruct (is_nil ps); [rewrite ctable_next|]; exact Hx.
+        rewrite ctable_fired. destruct (is_nil ps); [rewrite ctable_next|]; exact Hx.
+Qed.
+
+Lemma flush_quiet t : forall done fired id,
+  p_raised (flush_x t fired id done) = false ->
+  p_tr (flush_x t fired id done) = flat_map (fun a : lvl => after_part (ltab t a) SCreated a id) done.
+Proof.
+  induction done as [|a r IH]; intros fired id; cbn [flush_x flat_map]; [reflexivity|].
+  destruct (p_raised (after_x (ltab t a) fired SCreated a id)) eqn:E; [intros H; congruence|].
+  cbn [p_raised p_tr]. intros H. destruct (after_x_quiet _ _ _ _ _ E) as [H1 _]. rewrite H1, (IH _ _ H). reflexivity.
 Qed.
 
 Lemma flat_after_no_insert t ls id :
@@ -81,14 +94,15 @@ Lemma chain_created_after t l kw s s' id tr :
 Proof.
   unfold chain_create. destruct (negb (chain_kw_ok l (mk_kw kw))); [discriminate|].
   remember (chain_level t (lineage l) (mk_kw kw) (mk_kw kw) None s) as r eqn:Hr.
+  destruct (p_raised (flush_x t (cfired (x_st r)) (cnext s) (x_done r))) eqn:Ef; [discriminate|].
   destruct (x_ok r) eqn:Hok; [discriminate|].
-  intros H. inversion H; subst s' id tr; clear H.
+  intros H. inversion H; subst s' id tr; clear H. rewrite (flush_quiet _ _ _ _ Ef).
   pose proof (chain_level_ok t (lineage l) (mk_kw kw) (mk_kw kw) None s) as L.
   rewrite <- Hr in L. destruct (L Hok) as [Hid [Hnc [Hins [Hdone Hrows]]]].
   rewrite Hid. repeat split.
   - rewrite cai_app by exact Hnc. apply cai_no_insert, flat_after_no_insert.
   - rewrite inserts_of_app, Hins, inserts_of_none by apply flat_after_no_insert. apply app_nil_r.
-  - exact Hrows.
+  - intros a Ha. rewrite ctable_fired. exact (Hrows a Ha).
 Qed.
 
 (* all histories of creations *)
